@@ -29,7 +29,7 @@ def run(ctx):
         scope.add(c.path)
     ctx.functions.update(scope)
     obs = g_obligations(ctx, scope, ("arith", "cast", "index", "slice", "shift"))
-    ctx.floor("C07.partial-operation-sites", len(obs), 60)
+    ctx.floor("C07.partial-operation-sites", len(obs), 20)
     for o in obs:
         ctx.add(o)
     # limit: saturating conversion present
